@@ -1,13 +1,23 @@
 package c07
 
-import "pgregory.net/rapid"
+import (
+	"pgregory.net/rapid"
+	"verif/busmodel"
+)
+
+func genAmbient(t *rapid.T) int {
+	if rapid.Bool().Draw(t, "hasAmbient") {
+		return rapid.IntRange(0, busmodel.AmbAll).Draw(t, "ambient")
+	}
+	return 0
+}
 
 func genH(t *rapid.T) H {
 	return H{Ctx: rapid.Bool().Draw(t, "ctx"), Async: rapid.Bool().Draw(t, "async"), Yield: rapid.IntRange(0, 3).Draw(t, "yield")}
 }
 
 func GenOverlap(t *rapid.T) *OverlapCase {
-	c := &OverlapCase{Rounds: 5, Procs: rapid.SampledFrom([]int{1, 2, 4, 16}).Draw(t, "procs")}
+	c := &OverlapCase{Ambient: genAmbient(t), Rounds: 5, Procs: rapid.SampledFrom([]int{1, 2, 4, 16}).Draw(t, "procs")}
 	nh := rapid.IntRange(1, 3).Draw(t, "nh")
 	for i := 0; i < nh; i++ {
 		c.Handlers = append(c.Handlers, genH(t))
@@ -20,7 +30,7 @@ func GenOverlap(t *rapid.T) *OverlapCase {
 }
 
 func GenOrder(t *rapid.T) *OrderCase {
-	c := &OrderCase{N: rapid.IntRange(1, 50).Draw(t, "n"), Procs: rapid.SampledFrom([]int{1, 2, 4, 16}).Draw(t, "procs"), UseCtx: rapid.Bool().Draw(t, "usectx")}
+	c := &OrderCase{Ambient: genAmbient(t), N: rapid.IntRange(1, 50).Draw(t, "n"), Procs: rapid.SampledFrom([]int{1, 2, 4, 16}).Draw(t, "procs"), UseCtx: rapid.Bool().Draw(t, "usectx")}
 	nh := rapid.IntRange(1, 2).Draw(t, "nh")
 	for i := 0; i < nh; i++ {
 		c.Handlers = append(c.Handlers, H{Ctx: rapid.Bool().Draw(t, "ctx"), Async: true})
